@@ -70,96 +70,150 @@ def parseImplLine (s : String) : Option ImplLine :=
 def sameSet {α : Type} [BEq α] (a b : List α) : Bool :=
   a.length == b.length && a.all b.contains && b.all a.contains
 
+/-- what the oracle keeps of one producer's data deliveries: (key hash, receivers) -/
+abbrev Deliveries := List (Nat × List Coord)
+
+structure Producer where
+  modelOut : List String
+  fails : List String
+  connected : List Coord
+  deliveries : Deliveries
+  malformed : Bool
+  nData : Nat
+
+/-- model run + spec-side oracle for one producer replica (`lines` = its implementation lines) -/
+def producer (cfg : Cfg) (me : Coord) (next : List (Coord × Bool)) (es : List (Elem Val))
+    (implLines : List String) (tag : String) : Producer := Id.run do
+  let strat := cfg.strategy
+  -- model
+  let st0 := setup cfg me.block next
+  let ok := setupOk strat st0.groups
+  let mut st := st0
+  let mut out : List String := []
+  let mut i := 0
+  for e in es do
+    let (st', sent) := step cfg hashOf 0 st e
+    st := st'
+    unless sent.isEmpty do
+      out := out ++ [tag ++ fmtStep strat i e (sent.filterMap fun (k, _) => st0.senders[k]?.map (·.coord))]
+    i := i + 1
+  let modelOut :=
+    if !ok then ["panic:other:assertion_`left_==_right`_failed___left:"]
+    else if st.panicked then ["panic:index"] else out
+  -- spec-side oracle on the implementation's lines
+  let connected := (next.filter fun p => !p.2 && !cfg.ignore.contains p.1.block).map (·.1)
+  let blocks := (connected.map (·.block)).eraseDups
+  -- an element after `Terminate` that `End` would forward (anything but `FlushBatch`): the
+  -- senders are gone, the code panics iff at least one replica is connected
+  let afterTerm := ((es.dropWhile (!·.isTerm)).drop 1).any fun e => e != Elem.flushBatch
+  let malformed := (afterTerm && !connected.isEmpty) ||
+    (strat == .onlyOne && blocks.any fun b => (connected.filter (·.block == b)).length != 1)
+  let mut fails : List String := []
+  let lines := implLines.filterMap parseImplLine
+  if lines.length ≠ implLines.length then fails := fails ++ ["unparsable implementation output"]
+  let mut deliveries : Deliveries := []
+  let mut k := 0
+  for e in es do
+    let ls := lines.filter (·.step == k)
+    let estr := elemToStr e
+    if ls.any (·.elem != estr) then fails := fails ++ [s!"{tag}step {k}: a receiver got a different element"]
+    if ls.length > 1 then fails := fails ++ [s!"{tag}step {k}: several output groups"]
+    let recv := ls.flatMap (·.recv)
+    match e with
+    | .item a | .ts a _ =>
+      if strat == .random then
+        let counts := ls.flatMap (·.counts)
+        unless sameSet counts (blocks.map fun b => (b, 1)) do
+          fails := fails ++ [s!"{tag}step {k}: shuffle must reach exactly one replica of every downstream block, got {counts}"]
+      else if strat == .all then
+        unless sameSet recv connected do
+          fails := fails ++ [s!"{tag}step {k}: broadcast reached {recv.map coordStr} of {connected.map coordStr}"]
+      else
+        unless recv.all connected.contains do
+          fails := fails ++ [s!"{tag}step {k}: delivered to a replica that is not connected"]
+        for b in blocks do
+          unless (recv.filter (·.block == b)).length == 1 do
+            fails := fails ++ [s!"{tag}step {k}: block {b} got the element {(recv.filter (·.block == b)).length} times"]
+        if strat == .groupBy then deliveries := deliveries ++ [(hashOf a, recv)]
+    | .wm _ | .far =>
+      unless sameSet recv connected do
+        fails := fails ++ [s!"{tag}step {k}: {estr} reached {recv.map coordStr} of {connected.map coordStr}"]
+    | .term =>
+      let expected := connected.filter fun co => some co.block != cfg.feedback
+      unless sameSet recv expected do
+        fails := fails ++ [s!"{tag}step {k}: TERM reached {recv.map coordStr}, expected {expected.map coordStr}"]
+    | .flushBatch =>
+      unless recv.isEmpty do fails := fails ++ [s!"{tag}step {k}: FlushBatch was forwarded"]
+    k := k + 1
+  if lines.any (·.step ≥ es.length) then fails := fails ++ ["output for a step that does not exist"]
+  return { modelOut, fails, connected, deliveries, malformed, nData := (es.filter Elem.isData).length }
+
+/-- "equal key hash ⇒ same consumer coordinate", inside every downstream block whose connected
+    replicas are the same for the two deliveries' producers (`conn` gives them per delivery) -/
+def keyConsistency (ds : List (Nat × List Coord × List Coord)) : List String := Id.run do
+  let mut fails : List String := []
+  let mut seen : List (Nat × List Coord × List Coord) := []
+  for (h, recv, conn) in ds do
+    for (h', recv', conn') in seen do
+      if h == h' then
+        for b in (conn.map (·.block)).eraseDups do
+          if sameSet (conn.filter (·.block == b)) (conn'.filter (·.block == b)) then
+            unless sameSet (recv.filter (·.block == b)) (recv'.filter (·.block == b)) do
+              fails := fails ++ [s!"equal keys (hash {h}) were delivered to different replicas of block {b}: {(recv.filter (·.block == b)).map coordStr} vs {(recv'.filter (·.block == b)).map coordStr}"]
+    unless seen.any (fun x => x.1 == h && x.2.1 == recv && x.2.2 == conn) do
+      seen := seen ++ [(h, recv, conn)]
+  return fails
+
 def handle (c : Case) : Verdict := Id.run do
   match c.header with
-  | [_, _, strat, me, fb] =>
+  | _ :: _ :: strat :: me :: fb :: rest =>
     let strat := parseStrategy strat
     let me := (parseCoord me).getD default
+    let me2 := rest.head?.bind parseCoord
     let cfg : Cfg := {
       strategy := strat, feedback := fb.toNat?,
       ignore := c.ops.filterMap fun w => match w with | ["ignore", b] => b.toNat? | _ => none }
-    let next := dedupCoords (c.ops.filterMap fun w =>
+    let nextOf (kw : String) := dedupCoords (c.ops.filterMap fun w =>
       match w with
-      | ["next", co, f] => (parseCoord co).map fun co => (co, f == "1")
+      | [k, co, f] => if k == kw then (parseCoord co).map fun co => (co, f == "1") else none
       | _ => none)
-    let es := c.ops.filterMap fun w => match w with | ["e", e] => parseElem e | _ => none
-    -- model
-    let st0 := setup cfg me.block next
-    let ok := setupOk strat st0.groups
-    let mut st := st0
-    let mut out : List String := []
-    let mut i := 0
-    for e in es do
-      let (st', sent) := step cfg hashOf 0 st e
-      st := st'
-      unless sent.isEmpty do
-        out := out ++ [fmtStep strat i e (sent.filterMap fun (k, _) => st0.senders[k]?.map (·.coord))]
-      i := i + 1
-    let modelOut :=
-      if !ok then ["panic:other:assertion_`left_==_right`_failed___left:"]
-      else if st.panicked then ["panic:index"] else out
-    -- spec-side oracle on the implementation's lines
-    let connected := (next.filter fun p => !p.2 && !cfg.ignore.contains p.1.block).map (·.1)
-    let blocks := (connected.map (·.block)).eraseDups
-    let afterTerm := ((es.dropWhile (!·.isTerm)).drop 1).length > 0
-    let malformed := afterTerm ||
-      (strat == .onlyOne && blocks.any fun b => (connected.filter (·.block == b)).length != 1)
+    let esOf (kw : String) := c.ops.filterMap fun w =>
+      match w with | [k, e] => if k == kw then parseElem e else none | _ => none
     let isPanic := match c.implOut with | [l] => l.startsWith "panic" | _ => false
+    let impl1 := if isPanic then [] else c.implOut.filter fun l => !l.startsWith "P2 "
+    let impl2 := if isPanic then [] else
+      (c.implOut.filter fun l => l.startsWith "P2 ").map fun l => (l.drop 3).toString
+    let p1 := producer cfg me (nextOf "next") (esOf "e") impl1 ""
+    let p2 := me2.map fun me2 => producer cfg me2 (nextOf "next2") (esOf "e2") impl2 "P2 "
+    -- a panic of either producer replaces the whole output
+    let firstPanic := ((p1.modelOut ++ (p2.map (·.modelOut)).getD []).filter (·.startsWith "panic")).head?
+    let modelOut := match firstPanic with
+      | some p => [p]
+      | none => p1.modelOut ++ (p2.map (·.modelOut)).getD []
+    let malformed := p1.malformed || (p2.map (·.malformed)).getD false
     let mut fails : List String := []
     if isPanic then
       unless malformed do fails := fails ++ [s!"unexpected {c.implOut.headD ""}"]
     else
-      let lines := c.implOut.filterMap parseImplLine
-      if lines.length ≠ c.implOut.length then fails := fails ++ ["unparsable implementation output"]
-      let mut byHash : List (Nat × List Coord) := []
-      let mut k := 0
-      for e in es do
-        let ls := lines.filter (·.step == k)
-        let estr := elemToStr e
-        if ls.any (·.elem != estr) then fails := fails ++ [s!"step {k}: a receiver got a different element"]
-        if ls.length > 1 then fails := fails ++ [s!"step {k}: several output groups"]
-        let recv := ls.flatMap (·.recv)
-        match e with
-        | .item a | .ts a _ =>
-          if strat == .random then
-            let counts := ls.flatMap (·.counts)
-            unless sameSet counts (blocks.map fun b => (b, 1)) do
-              fails := fails ++ [s!"step {k}: shuffle must reach exactly one replica of every downstream block, got {counts}"]
-          else if strat == .all then
-            unless sameSet recv connected do
-              fails := fails ++ [s!"step {k}: broadcast reached {recv.map coordStr} of {connected.map coordStr}"]
-          else
-            unless recv.all connected.contains do
-              fails := fails ++ [s!"step {k}: delivered to a replica that is not connected"]
-            for b in blocks do
-              unless (recv.filter (·.block == b)).length == 1 do
-                fails := fails ++ [s!"step {k}: block {b} got the element {(recv.filter (·.block == b)).length} times"]
-            if strat == .groupBy then
-              let h := hashOf a
-              match byHash.find? (·.1 == h) with
-              | some (_, r) =>
-                unless sameSet r recv do
-                  fails := fails ++ [s!"step {k}: equal keys were delivered to different replicas"]
-              | none => byHash := (h, recv) :: byHash
-        | .wm _ | .far =>
-          unless sameSet recv connected do
-            fails := fails ++ [s!"step {k}: {estr} reached {recv.map coordStr} of {connected.map coordStr}"]
-        | .term =>
-          let expected := connected.filter fun co => some co.block != cfg.feedback
-          unless sameSet recv expected do
-            fails := fails ++ [s!"step {k}: TERM reached {recv.map coordStr}, expected {expected.map coordStr}"]
-        | .flushBatch =>
-          unless recv.isEmpty do fails := fails ++ [s!"step {k}: FlushBatch was forwarded"]
-        k := k + 1
-      if lines.any (·.step ≥ es.length) then fails := fails ++ ["output for a step that does not exist"]
+      fails := p1.fails ++ (p2.map (·.fails)).getD []
+      -- equal key hash ⇒ same consumer coordinate, within and ACROSS producers
+      fails := fails ++ keyConsistency
+        (p1.deliveries.map (fun d => (d.1, d.2, p1.connected)) ++
+         ((p2.map fun p => p.deliveries.map fun d => (d.1, d.2, p.connected)).getD []))
     let oracle := match fails with | [] => none | f :: _ => some s!"{f} ({fails.length} failures)"
-    let nData := (es.filter Elem.isData).length
+    let blocks := (p1.connected.map (·.block)).eraseDups
+    let shared : Nat := match p2 with
+      | some p => (blocks.filter fun b =>
+          sameSet (p1.connected.filter fun (x : Coord) => x.block == b)
+            (p.connected.filter fun (x : Coord) => x.block == b)).length
+      | none => 0
     return { out := modelOut, oracle,
-             nontrivial := nData > 0 && !connected.isEmpty && !isPanic,
+             nontrivial := p1.nData > 0 && !p1.connected.isEmpty && !isPanic,
              tags := [c.header.getD 2 "?", s!"blocks{blocks.length}"] ++
                (if cfg.feedback.isSome then ["feedback"] else []) ++
                (if !cfg.ignore.isEmpty then ["ignore"] else []) ++
-               (if next.any (·.2) then ["fragile"] else []) ++
+               (if (nextOf "next").any (·.2) then ["fragile"] else []) ++
+               (if p2.isSome then [s!"two-producers-shared{shared}"] else []) ++
                (if malformed then ["malformed"] else []) ++
                (if isPanic then ["panic"] else []) }
   | _ => return { out := [], oracle := some "bad header", nontrivial := false }
